@@ -116,18 +116,14 @@ func propC11(e *Env) {
 			matched++
 		}
 	}
-	// The feeder stamps every line with the scheduler step at which it started to hand it over and the
-	// step at which the line after the next had been accepted: both hops (harness -> runtime fan-out loop
-	// -> VM loop) are unbuffered and each loop takes a line only after finishing the previous one, so when
-	// line i+2 has been accepted the VM has taken line i+1 and therefore finished line i. Every line's
-	// effect lies inside [invoke, ret] (conservatively: ret may be later than the true completion).
+	// The feeder stamps every line with the scheduler step at which it started to hand it over: no effect
+	// of the line can exist before that step.
 	const never = int(^uint(0) >> 1)
 	invoke := make([]int, len(lines))
-	ret := make([]int, len(lines))
 	isMatch := make([]bool, len(lines))
 	lineNoOf := make([]int, len(lines))
 	for i, l := range lines {
-		invoke[i], ret[i] = never, never
+		invoke[i] = never
 		var a, c int
 		var b string
 		if n, _ := fmt.Sscanf(l, "%d %s %d", &a, &b, &c); n == 3 {
@@ -140,53 +136,34 @@ func propC11(e *Env) {
 		for i, l := range lines {
 			invoke[i] = e.S.Steps
 			simrt.Send(r.lines, logline.New(context.Background(), "log", l))
-			if i > 1 {
-				ret[i-2] = e.S.Steps
-			}
 		}
 		fedDone = true
 	})
-	// window check of one exported sample read between steps ri and rr
+	// check of one exported sample read between steps ri and rr against the values that had existed by
+	// then. The statement asks for "a value that existed at some point", not for the most recent one (an
+	// export cache would be legitimate), so only the upper side is a violation: a counter value larger
+	// than the number of increments begun when the read ended, or a gauge value no line begun by then wrote.
 	windowCheck := func(name, series string, v float64, ri, rr int) string {
 		switch {
 		case strings.HasPrefix(series, "total{") || series == "total":
-			lo, hi := 0, 0
+			hi := 0
 			for j := range lines {
-				if !isMatch[j] {
-					continue
-				}
-				if ret[j] < ri {
-					lo++
-				}
-				if invoke[j] <= rr {
+				if isMatch[j] && invoke[j] <= rr {
 					hi++
 				}
 			}
-			if int(v) < lo || int(v) > hi {
-				return fmt.Sprintf("%s read %s = %v between steps %d and %d, but %d increments had completed before the read began and only %d had begun when it ended", name, series, v, ri, rr, lo, hi)
+			if v < 0 || int(v) > hi || v != float64(int(v)) {
+				return fmt.Sprintf("%s read %s = %v in a scrape that ended at step %d, when only %d increments had begun: the counter never held that value", name, series, v, rr, hi)
 			}
 		case strings.HasPrefix(series, "lineno{") || series == "lineno":
-			ok := false
-			lastDone := -1
+			ok := v == 0
 			for j := range lines {
-				if !isMatch[j] {
-					continue
-				}
-				if ret[j] < ri {
-					lastDone = j
-				}
-				if invoke[j] <= rr && ret[j] >= ri && lineNoOf[j] == int(v) {
+				if isMatch[j] && invoke[j] <= rr && lineNoOf[j] == int(v) && v == float64(int(v)) {
 					ok = true
 				}
 			}
-			if lastDone >= 0 && lineNoOf[lastDone] == int(v) {
-				ok = true
-			}
-			if lastDone < 0 && v == 0 {
-				ok = true
-			}
 			if !ok {
-				return fmt.Sprintf("%s read %s = %v between steps %d and %d: no line that was being processed in that window, nor the last one finished before it, wrote that value", name, series, v, ri, rr)
+				return fmt.Sprintf("%s read %s = %v in a scrape that ended at step %d: no line begun by then wrote that value", name, series, v, rr)
 			}
 		}
 		return ""
